@@ -55,10 +55,10 @@ def units(tier, seed):
 
 def drivers_for(kind, n, tier):
     if kind == "inflow":
-        return [f"imp:{t}:0" for t in range(n)] + ["pos", "mixed", "mid0", "pos@tiny", "mixed@huge"]
+        return [f"imp:{t}:0" for t in range(n)] + ["pos", "mixed", "mid0", "pos@tiny", "mixed@huge", "pos#int"]
     if kind == "simple":
-        return ["pos", "mixed"]
-    return ["from-inflow", "inc", "dec", "hump", "mid0", "tail0", "hump@tiny", "dec@huge"] + ([f"imp:{t}:0" for t in range(n)] if tier == "thorough" else ["imp:0:0", f"imp:{n-2}:0"])
+        return ["pos", "mixed", "pos#int"]
+    return ["from-inflow", "inc", "dec", "hump", "mid0", "tail0", "hump@tiny", "dec@huge", "hump#int"] + ([f"imp:{t}:0" for t in range(n)] if tier == "thorough" else ["imp:0:0", f"imp:{n-2}:0"])
 
 
 def shapes_dict(lt, pair):
@@ -74,11 +74,19 @@ def run_simple(grid, extra, drv, case):
 
     n = len(grid)
     dims = dsm_impl.make_dims(grid, extra)
-    s = flodym.SimpleFlowDrivenStock(dims=dims)
     inflow = dsm_impl.driver_series(drv, n, extra)
-    outflow = dsm_impl.driver_series("pos2", n, extra)
-    dsm_impl.fill(s.inflow, inflow, extra)
-    dsm_impl.fill(s.outflow, outflow, extra)
+    outflow = dsm_impl.driver_series("pos2" + ("#int" if drv.endswith("#int") else ""), n, extra)
+    if drv.endswith("#int"):  # whole-number flows handed over in integer arrays
+        import numpy as np
+
+        fi, fo = flodym.StockArray(dims=dims, values=np.zeros(dims.shape, dtype=np.int64)), flodym.StockArray(dims=dims, values=np.zeros(dims.shape, dtype=np.int64))
+        dsm_impl.fill(fi, inflow, extra)
+        dsm_impl.fill(fo, outflow, extra)
+        s = flodym.SimpleFlowDrivenStock(dims=dims, inflow=fi, outflow=fo)
+    else:
+        s = flodym.SimpleFlowDrivenStock(dims=dims)
+        dsm_impl.fill(s.inflow, inflow, extra)
+        dsm_impl.fill(s.outflow, outflow, extra)
     s.compute()
     return dict(obj=s, stock=dsm_impl.series_from_nd(s.stock.values, extra), inflow=dsm_impl.series_from_nd(s.inflow.values, extra), outflow=dsm_impl.series_from_nd(s.outflow.values, extra))
 
@@ -114,7 +122,7 @@ def run_case(kind, grid, li, quad, extra, pair, drv, probe):
             d = r0["stock"]
         else:
             d = dsm_impl.driver_series(drv, n, extra)
-        return dsm_impl.run_stock(kind, grid, lt, quad, extra, shapes, d, recompute=(drv in RECOMPUTE_DRIVERS))
+        return dsm_impl.run_stock(kind, grid, lt, quad, extra, shapes, d, recompute=(drv in RECOMPUTE_DRIVERS), int_dtype=drv.endswith("#int"))
 
     st, res = attempt(compute)
     if st == "raised":
@@ -159,6 +167,22 @@ def run_case(kind, grid, li, quad, extra, pair, drv, probe):
                     arr[idx] = old
                     if st == "raised":
                         return fail("tiny-perturbation-rejected", f"{arr_name}[t={t0}, {lab}] perturbed by 1e-6 is rejected: {info}")
+            # perturbations sized at the threshold itself (1 unit of MASS): a single residual of 1.5 units is
+            # rejected, one of 0.4 units accepted; a flow rate counts with the length of its interval
+            for t0 in range(n):
+                idx = (t0,) + labs[(t0 * 2) % len(labs)]
+                old = arr[idx]
+                unit = 1.0 if arr_name == "stock" else 1.0 / dt[t0]
+                arr[idx] = old + 1.5 * unit
+                st, info = attempt(lambda: s.check_stock_balance())
+                arr[idx] = old
+                if st != "raised":
+                    return fail("perturbation-accepted", f"{arr_name}[t={t0}] perturbed by a residual of 1.5 mass units (interval length {dt[t0]}) is accepted by check_stock_balance")
+                arr[idx] = old + 0.4 * unit
+                st, info = attempt(lambda: s.check_stock_balance())
+                arr[idx] = old
+                if st == "raised":
+                    return fail("tiny-perturbation-rejected", f"{arr_name}[t={t0}] perturbed by a residual of 0.4 mass units is rejected: {info}")
             # two opposite perturbations in different years must not cancel
             if n >= 2:
                 a, b = (0,) + labs[0], (n - 1,) + labs[-1]
